@@ -52,7 +52,14 @@ PROOFS = {
     'C05': ['ShareNeverMore', 'ShareAtMostOneLess'],
     'C06': ['GrossUpperBound', 'CommissionIdentity'],
     'C15': ['SlippageGuardSound (a provision the guard lets through is within (d0/d1)(1-t) < r0/r1 + 2/D, each side)'],
+    'C10': ['BeliefAcceptedWithinLimit (accepted with a belief price: shortfall (E-rn)*D < (s+1)*E and E > offer/p - 1)',
+            'BeliefRejectedOnlyBeyondLimit (rejected with a belief price: rn*D + s*E < E*D and E <= offer/p)',
+            'SpreadAcceptedWithinLimit (spread-only: accepted only if spread*D < (s+1)*(return+spread))',
+            'SpreadRejectedOnlyBeyondLimit (spread-only: rejected only if spread*D > s*(return+spread))'],
+    'C12': ['ReverseNeverAboveClosedForm ((offer+x)*(y(1-c) - ask) <= x*y(1-c))',
+            'ReverseAtMostRoundingBelow (the bound of PropsMath!C12_Reverse: at most one unit per truncating step below)'],
 }
+PROOF_MODULE = {'C10': 'GuardLemmas', 'C12': 'GuardLemmas'}
 
 MATH_N = {'quick': 1600, 'thorough': 24000}
 # pure evaluation events (no formula re-derivation) are cheap: more of them
@@ -119,16 +126,17 @@ def run_proofs(pid):
     t0 = time.time()
     d = os.path.join(core.SPEC, 'proofs')
     try:
-        p = subprocess.run(['tlapm', '--threads', '8', 'ArithLemmas.tla'], cwd=d, stdout=subprocess.PIPE,
+        mod = PROOF_MODULE.get(pid, 'ArithLemmas')
+        p = subprocess.run(['tlapm', '--threads', '8', mod + '.tla'], cwd=d, stdout=subprocess.PIPE,
                            stderr=subprocess.STDOUT, text=True, timeout=900)
     except subprocess.TimeoutExpired:
         raise ToolError('tlapm timed out')
     m = re.search(r'All (\d+) obligations proved', p.stdout)
     if not m:
         raise ToolError('TLAPS lemmas not proved:\n' + p.stdout[-2000:])
-    log('[proof] ArithLemmas: %s obligations proved, %.1fs' % (m.group(1), time.time() - t0))
-    return {'module': 'spec/proofs/ArithLemmas.tla', 'obligations': int(m.group(1)), 'discharged': int(m.group(1)),
-            'lemmas_for_this_property': PROOFS[pid], 'checker_cmd': 'tlapm --threads 8 ArithLemmas.tla',
+    log('[proof] %s: %s obligations proved, %.1fs' % (mod, m.group(1), time.time() - t0))
+    return {'module': 'spec/proofs/%s.tla' % mod, 'obligations': int(m.group(1)), 'discharged': int(m.group(1)),
+            'lemmas_for_this_property': PROOFS[pid], 'checker_cmd': 'tlapm --threads 8 %s.tla' % mod,
             'note': 'lemmas over Int for all naturals and all D >= 1; they cover success paths of the arithmetic core, '
                     'not the code binding (which is the trace layer)'}
 
